@@ -100,8 +100,8 @@ def leaves_markdown(text):
             continue
         m = _MD_LEAF.match(ln)
         if m:
-            out.append({"path": [enc(m.group(1))], "v": {"t": "none", "s": "", "xs": []}})
             rest = ln[m.end():]
+            out.append({"path": [enc(m.group(1))], "v": {"t": "md", "s": enc(rest), "xs": []}})
             if rest.startswith("```"):
                 fence = rest[: len(rest) - len(rest.lstrip("`"))]
     return out
@@ -260,10 +260,10 @@ def run(ctx):
     try:
         keys = {"STATUS", "TESTS", "NAME", "GRP"}
         if ctx.thorough:
-            runs = [("three", dict(MaxItems=3, MaxDepth=2, KeyPool=keys, ValPool={"w", "int", "l2", "lmap", "z1", "holo", "null"})),
+            runs = [("three", dict(MaxItems=3, MaxDepth=2, KeyPool=keys, ValPool={"w", "int", "zero", "one", "fzero", "fone", "t", "f", "l2", "l01", "lmap", "z1", "ztrail", "zblank3", "holo", "null"})),
                     ("four", dict(MaxItems=4, MaxDepth=3, KeyPool={"STATUS", "NAME", "GRP"}, ValPool={"w"}))]
         else:
-            runs = [("two", dict(MaxItems=2, MaxDepth=1, KeyPool=keys, ValPool={"w", "two", "int", "l2", "lmap", "lq", "z1", "holo", "null", "flow"})),
+            runs = [("two", dict(MaxItems=2, MaxDepth=1, KeyPool=keys, ValPool={"w", "two", "int", "zero", "one", "fone", "t", "l2", "l01", "lmap", "lq", "z1", "zblank3", "holo", "null", "flow"})),
                     ("three", dict(MaxItems=3, MaxDepth=2, KeyPool={"STATUS", "NAME", "GRP"}, ValPool={"w"}))]
         cases, seen = [], set()
         for tag, consts in runs:
